@@ -85,33 +85,45 @@ func (c *Ctx) ruleLoopAlias(id string, fns []*ssa.Function, min int) {
 	}
 }
 
-// mutatorCore returns the function that holds the mutator's store write and broadcast: the mutator itself, or the
-// package helper it hands the work to (helpers are followed two levels deep). viaCall is the call in m.fn that leads there.
+// mutatorCore returns the function that holds the mutator's store write and the construction of the broadcast event:
+// the mutator itself, or the package helper it hands the work to (helpers are followed depth levels deep; other
+// mutators are not). viaCall is the call in fn that leads there (nil for fn itself).
 func (c *Ctx) mutatorCore(d *dstate, fn *ssa.Function, depth int) (*ssa.Function, *core.Call) {
-	if len(core.CallsTo(fn, d.queueBroadcast)) > 0 {
-		return fn, nil
+	holds := func(g *ssa.Function) bool {
+		w, e := false, false
+		for _, b := range g.Blocks {
+			for _, in := range b.Instrs {
+				if c.isStoreWrite(d, in) {
+					w = true
+				}
+				if st, ok := in.(*ssa.Store); ok {
+					if _, ok := st.Addr.(*ssa.IndexAddr); ok && d.isEntryType(st.Val.Type()) {
+						e = true
+					}
+				}
+			}
+		}
+		return w && e
 	}
-	if depth == 0 {
+	if holds(fn) || depth == 0 {
 		return fn, nil
 	}
 	for _, cl := range core.CallsIn(fn) {
 		if cl.Static == nil || cl.Static.Package() != d.pkg || d.mutatorOf(cl.Static) != nil || cl.Static == fn {
 			continue
 		}
-		if g, _ := c.mutatorCore(d, cl.Static, depth-1); len(core.CallsTo(g, d.queueBroadcast)) > 0 {
+		if g, _ := c.mutatorCore(d, cl.Static, depth-1); holds(g) {
 			return g, cl
 		}
 	}
 	return fn, nil
 }
 
-// queuesAfterWrites: on every successful path of fn, a store write is followed by a QueueBroadcast (helpers are summarised recursively). Returns the number of writing+queueing paths and a counterexample.
+// queuesAfterWrites: on every successful path of fn, a store write is followed by a QueueBroadcast. The package's
+// helpers are inlined into the paths (three levels); other mutators are events that write and broadcast themselves.
+// Returns the number of writing+queueing paths and a counterexample.
 func (c *Ctx) queuesAfterWrites(d *dstate, fn *ssa.Function, memo map[*ssa.Function]int) (nOK int, bad string, npaths int) {
-	if v, ok := memo[fn]; ok {
-		return v, "", 0
-	}
-	memo[fn] = 0
-	paths, err := core.EnumPaths(fn, core.PathOpts{})
+	paths, err := c.pathsInlinedPkg(fn, core.PathOpts{}, func(g *ssa.Function) bool { return d.mutatorOf(g) != nil })
 	if err != nil {
 		return 0, err.Error(), 0
 	}
@@ -135,19 +147,8 @@ func (c *Ctx) queuesAfterWrites(d *dstate, fn *ssa.Function, memo map[*ssa.Funct
 					queuedAfter = true
 					continue
 				}
-				if cl.Static != nil && d.mutatorOf(cl.Static) != nil {
+				if cl.Static != nil && cl.Static != fn && d.mutatorOf(cl.Static) != nil {
 					wrote, queuedAfter = true, true
-					continue
-				}
-				if cl.Static != nil && cl.Static.Package() == d.pkg && cl.Static != fn && len(core.CallsTo(cl.Static, d.queueBroadcast)) > 0 {
-					// helper that broadcasts itself: summarise
-					n, b, _ := c.queuesAfterWrites(d, cl.Static, memo)
-					if b != "" {
-						bad = b
-					}
-					if n > 0 {
-						wrote, queuedAfter = true, true
-					}
 					continue
 				}
 			}
@@ -162,7 +163,6 @@ func (c *Ctx) queuesAfterWrites(d *dstate, fn *ssa.Function, memo map[*ssa.Funct
 			nOK++
 		}
 	}
-	memo[fn] = nOK
 	return nOK, bad, len(paths)
 }
 
@@ -209,7 +209,7 @@ func checkC09(c *Ctx) {
 		}
 		// R2
 		bad = ""
-		qs := core.CallsTo(f, d.queueBroadcast)
+		qs := c.callsToDeep(f, 3, d.queueBroadcast)
 		if len(qs) == 0 {
 			bad = "no broadcast is queued"
 		}
@@ -337,7 +337,7 @@ func checkC09(c *Ctx) {
 	ru5 := c.R.Rule("C09-R5", "the memberlist.Broadcast type queued by mutators reports Invalidates == false for every other broadcast", "E11 constant return", 1)
 	seen := map[string]bool{}
 	for _, m := range d.mutators {
-		for _, q := range core.CallsTo(m.fn, d.queueBroadcast) {
+		for _, q := range c.callsToDeep(m.fn, 3, d.queueBroadcast) {
 			t := boxedType(q.Arg(0))
 			n, ok := t.(*types.Named)
 			if !ok || seen[n.Obj().Name()] {
